@@ -166,6 +166,26 @@ def sqrnLow (B : Nat) (a : List Nat) (size : Nat) : List Nat :=
     (d :: st.1, r')
   ((cols1 ++ cols2).foldl step ([], (0, 0, 0))).1.reverse
 
+/-- bn_sqra_low (the dbl_t variant): c[0..size] += a[0] * (a[0], 2a[1], …, 2a[size-1]) with a delayed carry;
+    returns the updated c (size + 1 digits) and the carry out -/
+def sqraLow (B : Nat) (c a : List Nat) (size : Nat) : List Nat × Nat :=
+  let B2 := B * B
+  let a0 := a.getD 0 0
+  let r := (c.getD 0 0 + a0 * a0) % B2
+  let c' := c.set 0 (r % B)
+  let st := (List.range (size - 1)).foldl (fun (st : List Nat × Nat × Nat) k =>
+    let (cs, c0, c1) := st
+    let i := k + 1
+    let r := (a0 * a.getD i 0) % B2
+    let r0 := (r + r) % B2
+    let r1 := (r0 + cs.getD i 0 + c0) % B2
+    let c0' := (r1 / B + c1) % B
+    let c1' := if r0 < r ∨ r1 < r0 ∨ c0' < c1 then 1 else 0
+    (cs.set i (r1 % B), c0', c1')) (c', r / B, 0)
+  let (cs, c0, c1) := st
+  let top := (cs.getD size 0 + c0) % B
+  (cs.set size top, c1 + (if top < c0 then 1 else 0))
+
 /-- bn_lsh1_low -/
 def lsh1Low (w : Nat) : List Nat → Nat → List Nat × Nat
   | [], carry => ([], carry)
